@@ -27,7 +27,8 @@ from ..refs import c03_inp_text as U
 
 ID = 'C03'
 LEVEL = 'exploration'
-CASES = {'quick': 480, 'thorough': 7000}
+CASES = {'quick': 400, 'thorough': 7000}
+SHRINK_BUDGET = {'quick': 35, 'thorough': 240}
 CASE_TIMEOUT = 40
 TECHNIQUE = ('property-based differential testing (Hypothesis): one generated model run by EPANET 2.2 on an independently '
              'written INP text, by EpanetSimulator in two unit systems, by EpanetSimulator on WNTR\'s reading of that '
@@ -75,7 +76,8 @@ LEVEL_NOTE = ('Trusted base: libepanet 2.2 and the ctypes wrapper that reaches i
 FEAT = {'nj': (2, 8), 'tanks': (0, 2), 'extra_res': (0, 1), 'pumps': True, 'valves': True, 'cvs': True,
         'closed': True, 'leaks': False, 'vol_curves': True, 'tank_links_special': True, 'booster': True, 'wild': 0.0,
         'report_all': False, 'durations': [3600, 7200, 4 * 3600, 8 * 3600, 12 * 3600, 24 * 3600]}
-W_SHARE = {'quick': 100, 'thorough': 100}
+W_SHARE = {'quick': 80, 'thorough': 100}     # per cent of the cases that also run WNTRSimulator (the slow part)
+MAX_STEPS = {'quick': 96, 'thorough': 288}   # hydraulic steps per run
 Q2 = 4.0e-4          # upper end of WNTR's H-W smoothing band (wntr/sim/models/constants.py: hw_q2)
 QTOL = 2.83168e-6    # EPANET Qtol (1e-4 cfs): flow below which a CV / pump status is indeterminate
 
@@ -138,6 +140,12 @@ def prepare(net, family):
         kreq = max(int(round(o['preq'] / unit * 100.0)), kmin + 50)
         o['pmin'] = kmin * 0.01 * unit
         o['preq'] = kreq * 0.01 * unit
+    # a tank that starts on (or within 2 % of) a limit reaches it at once: what the engines do there is not comparable
+    for t in net['tanks']:
+        span = t['max'] - t['min']
+        if not t['min'] + 0.2 * span <= t['init'] <= t['max'] - 0.2 * span:
+            t['init'] = round(t['min'] + (0.3 if t['init'] < t['min'] + 0.5 * span else 0.7) * span, 3)
+            ex.append('excl:tank_starts_at_limit')
     # closed or one-way links must not cut junctions off from every source
     closed = _base_closed(net)
     if not _all_reached(net, closed):
@@ -297,6 +305,8 @@ def _case(draw, tier):
     net = draw(netgen.network(f))
     fam = draw(st.sampled_from(['US', 'metric']))
     o = net['opts']
+    if o['duration'] // o['hyd'] > MAX_STEPS.get(tier, 96):
+        o['duration'] = MAX_STEPS.get(tier, 96) * o['hyd']
     if draw(st.integers(0, 4)) != 0:
         # four cases in five: every pattern period starts on the hydraulic grid (EPANET solves at every change of
         # the pattern period; a hydraulic step that runs past one is tallied and bucketed separately)
@@ -308,6 +318,13 @@ def _case(draw, tier):
         o['pattern_start'] -= o['pattern_start'] % o['pat']
     if draw(st.integers(0, 3)) != 0:
         o['rep'] = o['hyd']
+    if draw(st.integers(0, 3)) != 0:
+        # 2-point head curves (EPANET: straight line) are kept in one case out of four only: EPANET often fails to
+        # balance them and WNTR's fit of them is a known C02 finding that would mask everything else
+        for c in net['curves'].values():
+            if c['type'] == 'HEAD' and len(c['pts']) == 2:
+                (q0, h0), (q1, h1) = c['pts']
+                c['pts'] = [[0.0, round(h0 * 1.15, 3)], [q0 * 2.0, h0 * 0.85 if False else round(0.5 * (h0 + h1), 3)], [q1 * 1.4, round(h1 * 0.3, 3)]]
     ex = prepare(net, fam)
     if net['opts']['demand_model'] == 'PDD':
         pool = [u for u in U.UNITS if U.family(u) == fam]
@@ -449,12 +466,37 @@ def run_epanet_sim(wn, units, prefix):
     return _tab(sim.run_sim(file_prefix=prefix))
 
 
-def _rpt_warnings(prefix):
+def epanet_input_errors(inpfile):
+    """the 'Error nnn: ...' lines EPANET writes when it refuses an INP file"""
+    from wntr.epanet.toolkit import ENepanet
+    en = ENepanet(version=2.2)
+    rpt = inpfile + '.err.rpt'
     try:
-        txt = open(prefix + '.rpt', errors='replace').read()
+        en.ENopen(inpfile, rpt, inpfile + '.err.bin')
     except Exception:
-        return ''
-    return txt
+        pass
+    try:
+        en.ENclose()
+    except Exception:
+        pass
+    try:
+        lines = [l.strip() for l in open(rpt, errors='replace') if 'Error' in l]
+    except Exception:
+        lines = []
+    return [l for l in lines if not l.startswith('Error 200')] or lines
+
+
+def _epanet_failure(e, inpfile, what, tags):
+    """outcome for an exception raised while EPANET ran a file written by WNTR"""
+    msg = str(e)
+    if '(Error 110)' in msg:     # EPANET itself cannot solve the hydraulic equations (ill-conditioned)
+        return inconclusive('EPANET error 110 (cannot solve the hydraulic equations)', tags)
+    if '(Error 200)' in msg:
+        errs = epanet_input_errors(inpfile)
+        code = errs[0].split(':')[0].replace('Error ', '').strip() if errs else '200'
+        return fail('inp_rejected_by_epanet/error_%s' % code,
+                    '%s: EPANET rejects the INP file that WNTR wrote: %s' % (what, '; '.join(errs[:3]) or msg), tags)
+    return fail(exc_bucket(e, 'epanetsim'), '%s raised %r' % (what, e), tags)
 
 
 # ---------------------------------------------------------------------------------------------- comparison helpers
@@ -557,6 +599,22 @@ def near_threshold(cx, A, B, k):
     return None
 
 
+def threshold_events(cx, T):
+    """[(time, tank, 'limit'|'control')]: solved instants of the stepped EPANET run at which a tank stands within two
+    seconds of flow of one of its own limits / of a control or rule level"""
+    out = []
+    for t in cx.tanks:
+        tk = cx.tank[t]
+        for i, ts in enumerate(T.all_times):
+            lvl = T.tank_head[t][i] - tk['elev']
+            q = max(abs(T.tank_inflow[t][j]) for j in range(max(0, i - 1), i + 1))
+            band = 2.0 * q / cx.tank_area(t, lvl) + 2e-3
+            for n, thr in enumerate(cx.thr[t]):
+                if abs(lvl - thr) <= band:
+                    out.append((ts, t, 'limit' if n < 2 else 'control'))
+    return sorted(out)
+
+
 def scales(cx, A, k, nodes, links):
     heads = [A.node['head'][n][k] for n in nodes]
     hs = max(1.0, max(heads) - min(heads))
@@ -564,17 +622,116 @@ def scales(cx, A, k, nodes, links):
     return hs, qs
 
 
-def compare_same_engine(cx, A, B, nsteps, b_binary_status, pdd_cross=False):
-    """relation 1.  -> (kind, detail) with kind None | 'cut' | ('fail', quantity, class)"""
-    tol_rel = 3e-2 if pdd_cross else 2e-3
+def hw_k(p):
+    """Hazen-Williams resistance of a pipe of the spec, SI (10.667 = 4.727 ft/cfs form of the EPANET manual converted)"""
+    return 10.667 * p['len'] / (p['C'] ** 1.852 * p['diam'] ** 4.871)
+
+
+class Allow(object):
+    """Allowances of one report step for a comparison against reference table E (all derived from the spec).
+
+    head uncertainty `w_sens` -> flows: a pipe whose end heads may each be off by w_sens can carry a flow that differs by
+    what the Hazen-Williams law q = (h/K)^0.54 (minor losses only make it stiffer) gives for a head difference changed by
+    2*w_sens; the bound is tightened by continuity (flow of a link = demand of an end junction + the other links there),
+    which is also what bounds pumps, valves and the net inflow of tanks and reservoirs."""
+
+    def __init__(self, cx):
+        net = cx.net
+        self.cx = cx
+        self.pipes = {p['name']: p for p in net['pipes']}
+        self.kk = {n: hw_k(p) for n, p in self.pipes.items()}
+        self.at = {}
+        for name, a, b, kind, el in cx.links:
+            self.at.setdefault(a, []).append(name)
+            self.at.setdefault(b, []).append(name)
+
+    def flows(self, E, k, qbase, w_sens, extra, dtol):
+        """-> (ltol per link, ntol per tank/reservoir).  extra: {pipe: additional flow allowance}"""
+        cx, at = self.cx, self.at
+        inf = float('inf')
+        ltol = {}
+        for name, a, b, kind, el in cx.links:
+            if E.link['status'][name][k] == 0:
+                ltol[name] = qbase
+            elif name in self.pipes:
+                sens = 0.0
+                if w_sens > 0:
+                    he = abs(E.node['head'][a][k] - E.node['head'][b][k])
+                    qe = abs(E.link['flowrate'][name][k])
+                    sens = 1.4 * (2.0 * w_sens / self.kk[name]) ** 0.54
+                    if he > 2.0 * w_sens:
+                        sens = min(sens, qe * (((he + 2.0 * w_sens) / (he - 2.0 * w_sens)) ** 0.54 - 1.0))
+                ltol[name] = qbase + extra.get(name, 0.0) + sens
+            else:
+                ltol[name] = inf if w_sens > 0 else qbase
+        if w_sens > 0:
+            for _sweep in range(len(cx.junctions) + 1):
+                changed = False
+                for j in cx.junctions:
+                    for x in at.get(j, ()):
+                        if E.link['status'][x][k] == 0:
+                            continue
+                        cand = qbase + dtol[j] + sum(ltol[y] for y in at[j] if y != x)
+                        if cand < ltol[x] * (1 - 1e-9):
+                            ltol[x] = cand
+                            changed = True
+                if not changed:
+                    break
+            glob = sum(v for v in ltol.values() if v != inf) + sum(dtol.values())
+            for x in ltol:
+                if ltol[x] == inf:
+                    ltol[x] = glob
+        ntol = {n: qbase + sum(ltol[x] for x in at.get(n, ())) for n in cx.tanks + cx.reservoirs}
+        return ltol, ntol
+
+
+def off_pda_curve(cx, X, k):
+    """EPANET's own PDA iteration sometimes stops at a state off its documented demand curve (seen: full demand
+    delivered at 0.79 of the required pressure; two different states of a zone behind an active FCV in two unit
+    systems): such a step is no reference.  -> junction name or None"""
+    net = cx.net
+    o = net['opts']
+    for j in net['junctions']:
+        full = S.expected_demand(net, j, X.times[k])
+        if full <= 0:
+            continue
+        x = (X.node['pressure'][j['name']][k] - o['pmin']) / (o['preq'] - o['pmin'])
+        lo, hi = [full * (0.0 if y <= 0 else (1.0 if y >= 1 else y ** o['pexp'])) for y in (x - 0.01, x + 0.01)]
+        if not lo - 1e-3 * full - 1e-6 <= X.node['demand'][j['name']][k] <= hi + 1e-3 * full + 1e-6:
+            return j['name']
+    return None
+
+
+def events_between(solved_times, hyd, t0, t1):
+    """indices into solved_times within [t0, t1] and the number of them that are not hydraulic instants"""
+    idx = [i for i, ts in enumerate(solved_times) if t0 <= ts <= t1]
+    return idx, sum(1 for i in idx if solved_times[i] % hyd != 0)
+
+
+def compare_same_engine(cx, A, B, nsteps, b_binary_status, solved_times, tank_inflow, thr_events=(), tol_rel=2e-3):
+    """relation 1: two EPANET runs of what must be one model.  -> (kind, ...)
+
+    heads/pressures within tol_rel*Hscale + 1e-4 m, flows/demands within tol_rel*Qscale + 1e-7 m3/s.  Tanks integrate the
+    small flow differences that EPANET's own short unit constants cause (up to 1.2e-4 relative): a tank head may differ by
+    5e-4 of the level it has travelled so far, plus 1 s of inflow per event between hydraulic instants (event times are
+    whole seconds computed in file units); that head uncertainty is propagated to the flows with the pipe law.
+    """
+    o = cx.net['opts']
+    al = Allow(cx)
     worst = 0.0
+    travel = {t: 0.0 for t in cx.tanks}
+    slip = {t: 0.0 for t in cx.tanks}
+
+    def at_threshold(k):
+        lo = A.times[k - 1] if k > 0 else -1
+        return near_threshold(cx, A, B, k) or any(lo < ev[0] <= A.times[k] for ev in thr_events)
+
     for k in range(nsteps):
-        # statuses first
         for l in cx.lnames:
             sa, sb = A.link['status'][l][k], B.link['status'][l][k]
             same = ((sa == 0) == (sb == 0)) if b_binary_status else (sa == sb)
             if not same:
-                if near_threshold(cx, A, B, k):
+                if at_threshold(k):
                     return ('cut', 'status_band', k, worst)
                 qa, qb = abs(A.link['flowrate'][l][k]), abs(B.link['flowrate'][l][k])
                 if cx.lkind[l] not in ('pipe',) and min(qa, qb) <= 10 * QTOL:
@@ -582,19 +739,41 @@ def compare_same_engine(cx, A, B, nsteps, b_binary_status, pdd_cross=False):
                 return ('fail', 'status', cx.lkind[l], 't=%d link %s (%s): status %s vs %s, flow %.6g vs %.6g'
                         % (A.times[k], l, cx.lkind[l], sa, sb, A.link['flowrate'][l][k], B.link['flowrate'][l][k]), k, worst)
         hs, qs = scales(cx, A, k, cx.nnames, cx.lnames)
-        for key, names, table, sc, ab in (('head', cx.nnames, 'node', hs, 1e-4), ('pressure', cx.nnames, 'node', hs, 1e-4),
-                                          ('demand', cx.nnames, 'node', qs, 1e-7), ('flowrate', cx.lnames, 'link', qs, 1e-7)):
+        tank_term = 0.0
+        for t in cx.tanks:
+            if k > 0:
+                travel[t] += abs(A.node['head'][t][k] - A.node['head'][t][k - 1])
+                idx, nev = events_between(solved_times, o['hyd'], A.times[k - 1], A.times[k])
+                if nev:
+                    lv = [A.node['head'][t][i] - cx.tank[t]['elev'] for i in (k - 1, k)]
+                    area = min(cx.tank_area(t, lv[0]), cx.tank_area(t, lv[1]))
+                    slip[t] += 1.0 * nev * max(abs(tank_inflow[t][i]) for i in idx) / area
+            tank_term = max(tank_term, 5e-4 * travel[t] + slip[t])
+        w = 1e-4 + tol_rel * hs + tank_term
+        qbase = 1e-7 + tol_rel * qs
+        dtol = {j: qbase for j in cx.junctions}
+        ltol, ntol = al.flows(A, k, qbase, tank_term, {}, dtol)
+        # inputs first (boundary heads, demands), then states, so that the first failing quantity names the root cause
+        groups = (('head', cx.reservoirs, 'node', lambda n: w), ('demand', cx.junctions, 'node', lambda n: dtol[n]),
+                  ('head', cx.tanks, 'node', lambda n: w), ('flowrate', cx.lnames, 'link', lambda n: ltol[n]),
+                  ('head', cx.junctions, 'node', lambda n: w), ('pressure', cx.nnames, 'node', lambda n: w),
+                  ('demand', cx.tanks + cx.reservoirs, 'node', lambda n: ntol[n]))
+        for key, names, table, tolf in groups:
             ta = getattr(A, table)[key]
             tb = getattr(B, table)[key]
+            sc = hs if key in ('head', 'pressure') else qs
             for n in names:
                 d = abs(ta[n][k] - tb[n][k])
                 worst = max(worst, d / sc)
-                if not d <= tol_rel * sc + ab:
-                    if near_threshold(cx, A, B, k):
+                if not d <= tolf(n):
+                    if at_threshold(k):
                         return ('cut', 'value_band', k, worst)
+                    if o['demand_model'] == 'PDD' and (off_pda_curve(cx, A, k) or off_pda_curve(cx, B, k)):
+                        return ('cut', 'epanet_off_its_pda_curve', k, worst)
                     cls = cx.nkind[n] if table == 'node' else cx.lkind[n]
-                    return ('fail', key, cls, 't=%d %s %s (%s): %.9g vs %.9g, |diff| %.3g = %.3g of the step scale %.6g (tolerance %.1g)'
-                            % (A.times[k], key, n, cls, ta[n][k], tb[n][k], d, d / sc, sc, tol_rel), k, worst)
+                    return ('fail', key, cls, 't=%d %s %s (%s): %.9g vs %.9g, |diff| %.3g = %.3g of the step scale %.6g '
+                            '(allowance %.3g; tank term %.3g m)'
+                            % (A.times[k], key, n, cls, ta[n][k], tb[n][k], d, d / sc, sc, tolf(n), tank_term), k, worst)
         if not b_binary_status:
             for l in cx.lnames:
                 if cx.lkind[l] in ('PRV', 'PSV', 'FCV', 'TCV'):
@@ -606,7 +785,7 @@ def compare_same_engine(cx, A, B, nsteps, b_binary_status, pdd_cross=False):
 
 
 def pump2pt_law_violation(cx, W):
-    """a WNTR result that leaves the straight line through a 2-point head curve (known C02 finding) -> text, else None"""
+    """a WNTR result that leaves the straight line through a 2-point head curve (C02 finding) -> text, else None"""
     for name, a, b, kind, el in cx.links:
         if kind != 'pump' or el['type'] != 'HEAD':
             continue
@@ -626,41 +805,60 @@ def pump2pt_law_violation(cx, W):
     return None
 
 
-def hw_k(p):
-    """Hazen-Williams resistance of a pipe of the spec, SI (10.667 = 4.727 ft/cfs form of the EPANET manual converted)"""
-    return 10.667 * p['len'] / (p['C'] ** 1.852 * p['diam'] ** 4.871)
+def w_law_violation(cx, W):
+    """WNTR results that break an element law of the spec in a way that belongs to C02 -> (key, text) or None"""
+    txt = pump2pt_law_violation(cx, W)
+    if txt:
+        return 'pump_curve_2pt', txt
+    for name, a, b, kind, el in cx.links:
+        if kind == 'pump' and el['type'] == 'POWER':
+            for k in range(len(W.times)):
+                if W.link['status'][name][k] != 0 and W.link['flowrate'][name][k] < -10 * QTOL:
+                    return 'power_pump_reverse_flow', ('t=%d power pump %s is open with flow %.6g m3/s (negative branch of '
+                                                       'P = rho g q dH)' % (W.times[k], name, W.link['flowrate'][name][k]))
+    return None
 
 
-def compare_w(cx, E, W, nsteps, solved_times):
-    """relation 2/3.  -> (kind, ...)
+def compare_w(cx, E, W, nsteps, solved_times, tank_inflow, thr_events=()):
+    """relation 2/3: WNTRSimulator against EpanetSimulator.  -> (kind, ...)
     solved_times: every instant at which EPANET solved the hydraulics of this model (from the stepped run T)
 
-    Allowances of a step (all derived from the spec, none fitted):
-      head  w = 5e-3 m + 2e-3*Hscale + tank term + sum over open pipes inside WNTR's low-flow band of K*q2^1.852
-      pipe flow  1e-5 + 1e-3*Qscale (+ q2 inside the band) + what the H-W law can change for a head difference changed by 2w
-      other links / node inflows: continuity (sum of the allowances of the pipes and demands around them)
+    Allowances of a step (derived from the spec and the documented model differences, none fitted):
+      head  w = 5e-3 m (convergence) + 1e-5*Hscale (float32) + 5e-4 * largest head change across one open link (EPANET
+                stops when the last flow change is below ACCURACY; residual flow errors of 2e-4 relative were seen in PDA
+                runs, times the H-W exponent) + 1e-3 * head gain of open power pumps
+                (EPANET gamma = 62.4 lb/ft3 = 9802 N/m3, WNTR 9810: 8e-4) + 1e-3 * largest minor-loss head (g = 32.2 ft/s2
+                vs 9.81 m/s2: 4.6e-4) + tank term + sum over open pipes inside WNTR's low-flow band of K*q2^1.852
+      tank term = 2 s of the inflow per event between hydraulic instants + integral of the allowed inflow mismatch
+      flows: 1e-5 + 1e-3*Qscale (suite threshold) (+ q2 inside the band) + class Allow
     """
     net = cx.net
     o = net['opts']
     pdd = o['demand_model'] == 'PDD'
-    travel = {t: 0.0 for t in cx.tanks}
-    events = 0
-    prev_status = None
+    al = Allow(cx)
+    slip = {t: 0.0 for t in cx.tanks}
+    drift = {t: 0.0 for t in cx.tanks}
+    prev_ntol = None
     worst = {'head': 0.0, 'flow': 0.0}
-    pipes = {p['name']: p for p in net['pipes']}
-    kk = {n: hw_k(p) for n, p in pipes.items()}
-    at = {}
-    for name, a, b, kind, el in cx.links:
-        at.setdefault(a, []).append(name)
-        at.setdefault(b, []).append(name)
     jdem = {j['name']: j for j in net['junctions']}
     offgrid = sorted(t for t in solved_times if t % o['hyd'] != 0)
+    minor_k = {}
+    for name, a, b, kind, el in cx.links:
+        if kind == 'pipe':
+            minor_k[name] = (el['minor'], el['diam'])
+        elif kind == 'valve':
+            minor_k[name] = (el['minor'] + (el['setting'] if el['type'] == 'TCV' else 0.0), el['diam'])
     for k in range(nsteps):
         if o['rep'] > o['hyd'] and offgrid and offgrid[0] < E.times[k]:
             # after an event between two hydraulic instants EPANET continues in hydraulic steps counted from the
             # event until the next report instant, WNTRSimulator returns to the fixed grid: different (legitimate)
             # Euler discretisations of the tank levels
             return ('cut', 'offgrid_event_with_report_step_gt_hyd_step', k, worst)
+        if any(ev[0] <= E.times[k] and ev[2] == 'limit' and (ev[0] > 0 or k > 0) for ev in thr_events):
+            # a tank has reached its minimum or maximum level: what happens at and after that instant is handled
+            # differently by the engines (EPANET shuts every link that would drain/fill it until its next solution and
+            # clamps the level; WNTRSimulator overshoots by up to a second of flow and re-opens on its own grid)
+            return ('cut', 'tank_limit_reached', k, worst)
         # --- status configuration
         diff = []
         for l in cx.lnames:
@@ -673,40 +871,44 @@ def compare_w(cx, E, W, nsteps, solved_times):
                 diff.append(l)
         if diff:
             l = diff[0]
-            if all(x in cx.time_driven and cx.lkind[x] == 'pipe' for x in diff):
+            if all(x in cx.time_driven and cx.lkind[x] == 'pipe' and not (set(cx.ends[x]) & set(cx.tanks)) for x in diff):
                 return ('fail', 'status_time_driven', cx.lkind[l],
                         't=%d link %s is driven by time controls/rules only: EpanetSimulator status %s, WNTRSimulator %s'
                         % (E.times[k], l, E.link['status'][l][k], W.link['status'][l][k]), k, worst)
             why = 'level_band' if near_threshold(cx, E, W, k) else 'hydraulic'
             return ('cut', 'status_divergence/' + why + '/' + cx.lkind[l], k, worst)
-        events = sum(1 for t in offgrid if t <= E.times[k])
+        if pdd and off_pda_curve(cx, E, k):
+            return ('cut', 'epanet_off_its_pda_curve', k, worst)
         # --- allowances of this step
         hs, qs = scales(cx, E, k, cx.nnames, cx.lnames)
         tank_term = 0.0
         for t in cx.tanks:
             if k > 0:
-                travel[t] += abs(E.node['head'][t][k] - E.node['head'][t][k - 1])
-                lvl = E.node['head'][t][k] - cx.tank[t]['elev']
-                qmax = max(abs(E.node['demand'][t][i]) for i in range(max(0, k - 1), k + 1))
-                tank_term = max(tank_term, 2.0 * (1 + events) * qmax / cx.tank_area(t, lvl) + 2e-3 * travel[t])
+                lv = [E.node['head'][t][i] - cx.tank[t]['elev'] for i in (k - 1, k)]
+                area = min(cx.tank_area(t, lv[0]), cx.tank_area(t, lv[1]))
+                # every event between two hydraulic instants happens up to 2 s apart in the two engines (whole seconds,
+                # one truncates, one rounds up): the level keeps 2 s of the flow that was running into the event
+                idx, nev = events_between(solved_times, o['hyd'], E.times[k - 1], E.times[k])
+                if nev:
+                    slip[t] += 2.0 * nev * max(abs(tank_inflow[t][i]) for i in idx) / area
+                drift[t] += prev_ntol[t] * (E.times[k] - E.times[k - 1]) / area
+                tank_term = max(tank_term, slip[t] + drift[t])
         band = {}
-        for n, p in pipes.items():
+        for n in al.pipes:
             if E.link['status'][n][k] != 0 and min(abs(E.link['flowrate'][n][k]), abs(W.link['flowrate'][n][k])) < Q2:
-                band[n] = kk[n] * Q2 ** 1.852
-        w = 5e-3 + 2e-3 * hs + tank_term + sum(band.values())
+                band[n] = al.kk[n] * Q2 ** 1.852
+        gain = 0.0
+        for name, a, b, kind, el in cx.links:
+            if kind == 'pump' and el['type'] == 'POWER' and E.link['status'][name][k] != 0:
+                gain += abs(E.node['head'][b][k] - E.node['head'][a][k])
+        mloss = 0.0
+        for name, (mk, dm) in minor_k.items():
+            if mk > 0 and E.link['status'][name][k] != 0:
+                mloss = max(mloss, 8.0 * mk * E.link['flowrate'][name][k] ** 2 / (9.81 * math.pi ** 2 * dm ** 4))
+        elem = max([abs(E.node['head'][a][k] - E.node['head'][b][k]) for name, a, b, kind, el in cx.links
+                    if E.link['status'][name][k] != 0] + [0.0])
+        w = 5e-3 + 1e-5 * hs + 5e-4 * elem + 1e-3 * gain + 1e-3 * mloss + tank_term + sum(band.values())
         qbase = 1e-5 + 1e-3 * qs
-        ltol = {}
-        for n, p in pipes.items():
-            if E.link['status'][n][k] == 0:
-                ltol[n] = qbase
-                continue
-            a, b = cx.ends[n]
-            he = abs(E.node['head'][a][k] - E.node['head'][b][k])
-            qe = abs(E.link['flowrate'][n][k])
-            sens = 1.4 * (2.0 * w / kk[n]) ** 0.54
-            if he > 2.0 * w:
-                sens = min(sens, qe * (((he + 2.0 * w) / (he - 2.0 * w)) ** 0.54 - 1.0))
-            ltol[n] = qbase + (Q2 if n in band else 0.0) + sens
         dtol = {}
         for j in cx.junctions:
             if pdd:
@@ -714,21 +916,10 @@ def compare_w(cx, E, W, nsteps, solved_times):
                 dtol[j] = qbase + abs(full) * min(1.0, ((w + 0.05) / (o['preq'] - o['pmin'])) ** o['pexp'])
             else:
                 dtol[j] = 1e-7 + 1e-5 * abs(E.node['demand'][j][k])
-        glob = sum(ltol.values()) + sum(dtol.values())
-        for name, a, b, kind, el in cx.links:
-            if name in ltol:
-                continue
-            if E.link['status'][name][k] == 0:
-                ltol[name] = qbase
-                continue
-            best = glob
-            for end in (a, b):
-                if end in dtol and all(x in pipes for x in at[end] if x != name):
-                    best = min(best, dtol[end] + sum(ltol[x] for x in at[end] if x != name))
-            ltol[name] = best
-        ntol = {n: qbase + sum(ltol[x] for x in at.get(n, ())) for n in cx.tanks + cx.reservoirs}
+        ltol, ntol = al.flows(E, k, qbase, w, {n: Q2 for n in band}, dtol)
+        prev_ntol = ntol
         groups = (('head', cx.reservoirs, 'node', lambda n: 1e-4 + 1e-6 * abs(E.node['head'][n][k])),
-                  ('head', cx.tanks, 'node', lambda n: 5e-3 + tank_term),
+                  ('head', cx.tanks, 'node', lambda n: 5e-3 + 1e-5 * hs + (slip[n] + drift[n])),
                   ('demand', cx.junctions, 'node', lambda n: dtol[n]),
                   ('flowrate', cx.lnames, 'link', lambda n: ltol[n]),
                   ('head', cx.junctions, 'node', lambda n: w),
@@ -744,15 +935,19 @@ def compare_w(cx, E, W, nsteps, solved_times):
                 worst[wk] = max(worst[wk], d / (hs if wk == 'head' else qs))
                 if not d <= tol:
                     cls = cx.nkind[n] if table == 'node' else cx.lkind[n]
+                    if near_threshold(cx, E, W, k):
+                        # a tank sits on one of its limits or on a control level: the engines handle the instant of
+                        # reaching it differently (EPANET ignores a time-to-drain that rounds to 0 s and clamps)
+                        return ('cut', 'value_at_tank_threshold', k, worst)
                     return ('fail', key, cls,
                             't=%d %s %s (%s): EpanetSimulator %.9g, WNTRSimulator %.9g, |diff| %.3g > allowance %.3g '
                             '(step scales: head %.4g m, flow %.4g m3/s; head allowance %.3g m of which tank term %.3g m, '
-                            'low-flow pipes %s)'
-                            % (E.times[k], key, n, cls, te[n][k], tw[n][k], d, tol, hs, qs, w, tank_term, sorted(band)), k, worst)
+                            'power-pump gain %.3g m, minor loss %.3g m, low-flow pipes %s)'
+                            % (E.times[k], key, n, cls, te[n][k], tw[n][k], d, tol, hs, qs, w, tank_term, gain, mloss,
+                               sorted(band)), k, worst)
     return (None, None, nsteps, worst)
 
 
-# ---------------------------------------------------------------------------------------------- check
 def pattern_off_grid(o):
     """some pattern period starts strictly inside a hydraulic step"""
     return o['pat'] % o['hyd'] != 0 or o['pattern_start'] % o['hyd'] != 0
@@ -810,8 +1005,7 @@ def evaluate(case):
         try:
             runs[key] = run_epanet_sim(wn, units, 'c03%s_%d' % (key, pid))
         except Exception as e:
-            return fail(exc_bucket(e, 'epanetsim/' + ('write_or_run')),
-                        'EpanetSimulator with inpfile_units=%s raised %r' % (units, e), tags), diag
+            return _epanet_failure(e, 'c03%s_%d.inp' % (key, pid), 'EpanetSimulator with inpfile_units=%s' % units, tags), diag
     E1, E2 = runs['E1'], runs['E2']
     if not E1.ok or not E2.ok:
         if E1.ok != E2.ok:
@@ -826,6 +1020,8 @@ def evaluate(case):
     try:
         T = D.run(text, case['ut'], net, prefix='c03T_%d' % pid)
     except Exception as e:
+        if '(Error 110)' in str(e):
+            return inconclusive('EPANET error 110 (cannot solve the hydraulic equations)', tags), diag
         # EPANET refusing the harness' own text is a harness problem, not a finding
         return inconclusive('EPANET rejected the independent INP text: %s' % str(e)[:80], tags + ['HARNESS:text_rejected']), diag
     if T.halted or any('balanced' in w or 'converge' in w for w in T.warn):
@@ -841,7 +1037,7 @@ def evaluate(case):
     try:
         R = run_epanet_sim(wn_r, None, 'c03R_%d' % pid)
     except Exception as e:
-        return fail(exc_bucket(e, 'reader_then_run'), 'EpanetSimulator on the model read from the text raised %r' % e, tags), diag
+        return _epanet_failure(e, 'c03R_%d.inp' % pid, 'EpanetSimulator on the model read from the text (units %s)' % case['ut'], tags), diag
     if not R.ok:
         return inconclusive('EPANET run of the re-read model incomplete', tags), diag
     # ------------------------------------------------------------------ isolation guard
@@ -852,11 +1048,12 @@ def evaluate(case):
         n = min(n, cut)
     if n == 0:
         return inconclusive('a junction is cut off from every source at t = 0 (no defined EPANET solution)', tags), diag
+    thr_ev = threshold_events(cx, T)
     # ------------------------------------------------------------------ relation 1
     decided = 0
     compared = n
     for label, A, B, binary in (('e1_vs_e2', E1, E2, False), ('e1_vs_text', E1, Tt, True), ('reader_vs_text', R, Tt, True)):
-        res = compare_same_engine(cx, A, B, n, binary)
+        res = compare_same_engine(cx, A, B, n, binary, T.all_times, T.tank_inflow, thr_ev)
         diag[label] = res[-1]
         if res[0] == 'fail':
             _f, qty, cls, detail = res[:4]
@@ -864,8 +1061,8 @@ def evaluate(case):
                      'reader_vs_text': 'text in %s' % case['ut']}[label]
             if label == 'e1_vs_e2':
                 # name the unit system that disagrees with EPANET's own run of the independent text
-                r1 = compare_same_engine(cx, E1, Tt, n, True)
-                r2 = compare_same_engine(cx, E2, Tt, n, True)
+                r1 = compare_same_engine(cx, E1, Tt, n, True, T.all_times, T.tank_inflow, thr_ev)
+                r2 = compare_same_engine(cx, E2, Tt, n, True, T.all_times, T.tank_inflow, thr_ev)
                 culprit = case['u2'] if (r1[0] != 'fail' and r2[0] == 'fail') else (case['u1'] if (r1[0] == 'fail' and r2[0] != 'fail') else 'both')
                 bucket = 'unit_invariance/%s/%s/%s' % (qty, cls, U.family(culprit) if culprit != 'both' else 'both')
                 detail += '\nunit system disagreeing with EPANET on the independent text: %s' % culprit
@@ -894,13 +1091,13 @@ def evaluate(case):
         if len(W.times) != nexp or any(int(t) != k * o['rep'] for k, t in enumerate(W.times)):
             return fail('report_grid/W', 'WNTRSimulator reported times %s..., expected %d steps of %d s'
                         % (list(W.times[:6]), nexp, o['rep']), tags), diag
-        bad2 = pump2pt_law_violation(cx, W)
-        res = compare_w(cx, E1, W, n, T.all_times)
+        known = w_law_violation(cx, W)
+        res = compare_w(cx, E1, W, n, T.all_times, T.tank_inflow, thr_ev)
         diag['w_vs_e1'] = res[-1]
         if res[0] == 'fail':
             _f, qty, cls, detail = res[:4]
-            if bad2:
-                return fail('w_vs_e1/pump_curve_2pt', detail + '\n' + bad2, tags), diag
+            if known:
+                return fail('w_vs_e1/' + known[0], detail + '\n' + known[1], tags), diag
             if pattern_off_grid(o) and res[4] > 0:
                 return fail('w_vs_e1/pattern_change_inside_hyd_step',
                             detail + '\nhydraulic step %d s, pattern step %d s, pattern start %d s: a pattern period begins '
@@ -910,7 +1107,7 @@ def evaluate(case):
         if res[0] == 'cut':
             tags.append('cut:w:' + res[1])
         w_steps = res[2]
-        tags.append('w_compared')
+        tags.append('w_steps:%s' % ('0' if w_steps == 0 else ('1-2' if w_steps < 3 else '>=3')))
     nontrivial_net = bool(net['tanks'] or net['pumps'] or net['valves'] or any(p['cv'] for p in net['pipes']))
     if case.get('run_w', True) and w_steps == 0:
         return inconclusive('status configurations of the two engines differ from t = 0', tags), diag
